@@ -1,3 +1,34 @@
-From BP Require Import Base.Chars.
-Theorem C02_placeholder : True. Proof. exact I. Qed.
-Print Assumptions C02_placeholder.
+(* C02 - well-formed BibTeX yields exactly the blocks, keys, fields and values written.
+   Statements only; proofs in Proofs/SplitGrammar.v.  The dialect grammar is the AST of Model/Grammar.v
+   (DESIGN.md section 3) with its printer `render`, its constructive ground truth `expected` and the side
+   conditions `wf_doc` (a boolean: characters of names/keys, whitespace runs, "structural delimiters are
+   active", braced/quoted content, type words, free text, and side condition G = no block-start pattern
+   inside any text). *)
+From Coq Require Import List NArith ZArith Bool.
+From BP Require Import Base.Chars Model.Blocks Model.Splitter Model.Grammar Proofs.SplitGrammar.
+Import ListNotations.
+
+(* parse (print d) = ground truth of d, for EVERY document of the dialect: one block per source block in source
+   order; each entry has the lower-cased type, the exact key and its fields in order with exact names and verbatim
+   value text and the line of the '='; strings, preambles, explicit comments and free text carry their source text
+   (up to surrounding whitespace where the code strips); raw text and start line of every block are the source's *)
+Theorem C02_split_render : forall d, wf_doc d -> nodup_fields d -> split_raw (render d) = Blocks (expected d).
+Proof. exact split_render. Qed.
+Print Assumptions C02_split_render.
+
+(* ... with no failed block *)
+Theorem C02_no_failed : forall d, wf_doc d -> nodup_fields d ->
+  exists bs, split_raw (render d) = Blocks bs /\ filter is_failed_class bs = [].
+Proof. exact split_render_no_failed. Qed.
+Print Assumptions C02_no_failed.
+
+Theorem C02_expected_no_failed : forall d, forallb (fun b => negb (is_failed_class b)) (expected d) = true.
+Proof. exact expected_no_failed. Qed.
+Print Assumptions C02_expected_no_failed.
+
+(* non-vacuity: a concrete document (free text with delimiters and an '@', a @Comment with a nested group, a
+   @String, an entry with nested braces containing '=' and a double quote, a quoted value with an escaped quote, a brace
+   group and two '#' concatenations, a @misc {k2} entry, trailing free text) is well-formed, and boundary B1
+   (a quote inside braces inside a quoted piece) is outside the dialect and really diverges *)
+Example C02_example_wf : wf_doc ex_doc /\ nodup_fields ex_doc.
+Proof. split; [exact ex_wf | exact ex_nodup]. Qed.
